@@ -2060,12 +2060,13 @@ impl Oracles {
                 Some(k) => format!("after-panic:{}", k),
                 None => String::new(),
             };
-            if let Some(fz) = w.frozen_hash {
+            if w.any_frozen() {
+                let fz = format!("{:#b}/{:#b}", w.frozen_hard, w.frozen_soft);
                 let mut other_progress = false;
                 let mut blocked: Vec<u64> = Vec::new();
                 for (ci, c) in w.node.calls.iter().enumerate().filter(|(_, c)| c.lifetime == w.node.lifetime) {
                     let hx = w.node.htlc(c.hid).spec.hash_ix;
-                    if hx == fz {
+                    if w.stalled(hx) {
                         continue;
                     }
                     if c.delivered_step.map(|s| Some(s) >= w.frozen_at_step).unwrap_or(false) {
@@ -2083,12 +2084,12 @@ impl Oracles {
                         w,
                         "C14",
                         "other-hash-blocked",
-                        format!("htlc {} of a different hash stayed unanswered while hash index {} was frozen (its RPCs withheld)", hid, fz),
+                        format!("htlc {} of a different hash stayed unanswered while other hashes were frozen (bit masks of hash indices, RPCs withheld / outgoing payment stalled: {})", hid, fz),
                     );
                 }
             }
             for (ci, c) in w.node.held_calls() {
-                if Some(w.node.htlc(c.hid).spec.hash_ix) == w.frozen_hash {
+                if w.stalled(w.node.htlc(c.hid).spec.hash_ix) {
                     continue;
                 }
                 if !self.hung(w, ci) {
